@@ -14,6 +14,20 @@ BASELINE = ("cd /repo && /venv/bin/python -m pytest -ra -q -p no:cacheprovider "
             "--timeout=900 --continue-on-collection-errors")
 
 
+def _extra_rules(pid):
+    """Rule ids this property's check evaluates that its hand-written claim
+    text does not already name."""
+    import io
+    import contextlib
+    from sa.run import run_property
+    from sa.source import Repo
+    with contextlib.redirect_stdout(io.StringIO()):
+        code, col, new = run_property(pid, quiet=True, evidence=False,
+                                      repo=Repo())
+    text = CLAIMS[pid]['text']
+    return {o.rule for o in col.obs if o.rule not in text}
+
+
 def main():
     checks = []
     for pid in sorted(PROPS):
@@ -29,11 +43,21 @@ def main():
             'engine': 'sa',
             'level_claimed': {
                 'category': 'other',
-                'text': c['text'],
-                'design_ref': 'DESIGN.md section 6, %s' % pid,
+                'text': c['text'] + ' Further necessary conditions added '
+                        'during the seeded rounds (scope-wide rules over the '
+                        'functions reachable from this property\'s anchors '
+                        'and construct-anchored rules; DESIGN.md 11.3-11.4, '
+                        'each named with its rule id in the evidence file): '
+                        + ', '.join(sorted(
+                            k for k in _extra_rules(pid))) + '.',
+                'design_ref': 'DESIGN.md section 6 (%s), 11.3-11.4, 12'
+                              % pid,
             },
             'level_note': c['note'],
-            'technique': c['technique'],
+            'technique': c['technique'] + '; AST normalisation (helper '
+                         'inlining, literal-loop unrolling) before '
+                         'shape-reading rules; flow-sensitive argument-alias '
+                         'and closure-scope scans',
         })
     na = [{'property_id': p, 'reason': r}
           for p, r in sorted(NOT_APPLICABLE.items()) if p not in PROPS]
